@@ -5,7 +5,7 @@ import itertools
 def gen_graph(rng, nmin=4, nmax=11):
     r = rng.random()
     n = rng.randint(nmin, nmax)
-    labels = rng.sample(range(1, 3 * n + 2), n)
+    labels = rng.sample(range(0, 3 * n + 2), n)          # 0 is a vertex label like any other
     edges = set()
     if r < 0.55:
         p = rng.choice([0.3, 0.5, 0.7, 0.9])
